@@ -12,7 +12,7 @@ theorem xdoc_rej (lc : Libc) (hl : LibcSpec lc) : ∀ x, XRej lc x := by
     intro t l cur rest hwf hs hv hhs hl0 hst hok _ _ _ hnp c off rs
     simp only [XDoc.ok, beq_iff_eq] at hok
     simp only [XDoc.plain] at hnp
-    exact strict_lit_rejected lc t l cur none rest hwf hs hv hhs hl0 hst k caps hok hnp c off rs
+    exact strict_lit_rejected lc t l cur none rest hwf hs hv hst k caps hok hnp c off rs
   | hnum n =>
     intro t l cur rest _ _ _ _ _ _ _ _ _ _ hnp
     simp [XDoc.plain] at hnp
